@@ -6,6 +6,7 @@
 //   the same two over the probe backend (records the flat indices the interpolator reads)
 // One operation per line, one answer per line; floating values cross as decimal integer bit patterns only.
 //   F <clamp 0|1> s1..sN | cells (row-major, M words per cell)   -> "set <number of cells>"
+//   G <clamp 0|1> s1..sN                                         -> "set <number of cells>"  (large field, synthetic contents)
 //   L c1..cN                                                     -> "r1..rM | i1..i(2^N)"   (result words | indices read)
 #include <covfie/core/backend/primitive/array.hpp>
 #include <covfie/core/backend/transformer/clamp.hpp>
@@ -16,6 +17,7 @@
 #include <cstring>
 #include <iostream>
 #include <memory>
+#include <optional>
 #include <sstream>
 #include <string>
 #include <vector>
@@ -64,6 +66,8 @@ struct State {
   std::unique_ptr<field<LP>> fp;
   std::unique_ptr<field<LCA>> fca;
   std::unique_ptr<field<LCP>> fcp;
+  std::optional<typename field<LA>::view_t> va;
+  std::optional<typename field<LCA>::view_t> vca;
 };
 
 static typename A::owning_data_t filled(std::size_t total, const std::vector<u64> & cells) {
@@ -81,6 +85,26 @@ template <typename F, typename V> std::string look(F & f, const V & c) {
   for (std::size_t q = 0; q < M; ++q) os << (q ? " " : "") << bits<T>(r[q]);
   return os.str();
 }
+// The same lookup through a LONG-LIVED view (made when the field was set, used for every lookup since): a view is a value
+// without memory -- what it answers must not depend on the lookups it answered before.  Dies with a message otherwise.
+template <typename VW, typename V> void look_persistent(VW & v, const V & c, const std::string & fresh) {
+  auto r = v.at(c);
+  std::ostringstream os;
+  for (std::size_t q = 0; q < M; ++q) os << (q ? " " : "") << bits<T>(r[q]);
+  if (os.str() != fresh) {
+    std::cerr << "Assertion `a long-lived view answers like a fresh one' failed: " << os.str() << " vs " << fresh << std::endl;
+    std::abort();
+  }
+}
+// synthetic contents of a large field: word k (row-major, M words per cell) holds a small integer, see Driver/LinCheck.lean
+static inline T synth_val(u64 k) { return static_cast<T>(static_cast<long>(((k * 2654435761ull) % 4294967296ull) % 1021ull) - 510); }
+static typename A::owning_data_t filled_synth(std::size_t total) {
+  using cell_t = typename A::vector_t;
+  std::unique_ptr<cell_t[]> p = std::make_unique<cell_t[]>(total);
+  for (std::size_t i = 0; i < total; ++i)
+    for (std::size_t q = 0; q < M; ++q) p[i][q] = synth_val(i * M + q);
+  return typename A::owning_data_t(total, std::move(p));
+}
 
 int main() {
   std::ios::sync_with_stdio(false);
@@ -90,24 +114,28 @@ int main() {
     std::istringstream is(line);
     std::string op;
     is >> op;
-    if (op == "F") {
+    if (op == "F" || op == "G") {
+      const bool synth = op == "G";
       int cl; is >> cl;
       std::vector<u64> sz, cells; std::string t; bool second = false;
       while (is >> t) { if (t == "|") { second = true; continue; } (second ? cells : sz).push_back(std::stoull(t)); }
       if (sz.size() != N) { std::cout << "bad-op" << std::endl; continue; }
       std::size_t total = 1; for (auto s : sz) total *= s;
-      if (cells.size() != total * M) { std::cout << "bad-op" << std::endl; continue; }
+      if (!synth && cells.size() != total * M) { std::cout << "bad-op" << std::endl; continue; }
+      auto storage = [&] { return synth ? filled_synth(total) : filled(total, cells); };
       typename SA::configuration_t scfg; for (std::size_t k = 0; k < N; ++k) scfg[k] = sz[k];
       st.clamp = cl != 0;
-      st.fa.reset(); st.fp.reset(); st.fca.reset(); st.fcp.reset();
+      st.va.reset(); st.vca.reset(); st.fa.reset(); st.fp.reset(); st.fca.reset(); st.fcp.reset();
       if (!st.clamp) {
-        st.fa = std::make_unique<field<LA>>(make_parameter_pack(typename LA::configuration_t{}, typename SA::configuration_t(scfg), filled(total, cells)));
+        st.fa = std::make_unique<field<LA>>(make_parameter_pack(typename LA::configuration_t{}, typename SA::configuration_t(scfg), storage()));
+        st.va.emplace(*st.fa);
         st.fp = std::make_unique<field<LP>>(make_parameter_pack(typename LP::configuration_t{}, typename SP::configuration_t(scfg), typename P::configuration_t{&st.log}));
       } else {
         typename backend::clamp<SA>::configuration_t ccfg;
         typename backend::clamp<SP>::configuration_t pcfg;
         for (std::size_t k = 0; k < N; ++k) { ccfg.min[k] = 0; ccfg.max[k] = sz[k] - 1; pcfg.min[k] = 0; pcfg.max[k] = sz[k] - 1; }
-        st.fca = std::make_unique<field<LCA>>(make_parameter_pack(typename LCA::configuration_t{}, std::move(ccfg), typename SA::configuration_t(scfg), filled(total, cells)));
+        st.fca = std::make_unique<field<LCA>>(make_parameter_pack(typename LCA::configuration_t{}, std::move(ccfg), typename SA::configuration_t(scfg), storage()));
+        st.vca.emplace(*st.fca);
         st.fcp = std::make_unique<field<LCP>>(make_parameter_pack(typename LCP::configuration_t{}, std::move(pcfg), typename SP::configuration_t(scfg), typename P::configuration_t{&st.log}));
       }
       std::cout << "set " << total << std::endl;
@@ -118,8 +146,8 @@ int main() {
       for (std::size_t k = 0; k < N; ++k) c[k] = frombits<Cc>(cb[k]);
       st.log.idx.clear();
       std::string r;
-      if (!st.clamp) { r = look(*st.fa, c); (void)look(*st.fp, c); }
-      else { r = look(*st.fca, c); (void)look(*st.fcp, c); }
+      if (!st.clamp) { r = look(*st.fa, c); look_persistent(*st.va, c, r); (void)look(*st.fp, c); }
+      else { r = look(*st.fca, c); look_persistent(*st.vca, c, r); (void)look(*st.fcp, c); }
       std::ostringstream os;
       os << r << " |";
       for (auto i : st.log.idx) os << " " << i;
